@@ -32,6 +32,14 @@ int main(int argc, char** argv) {
   long long sv = strtoll(argv[2], 0, 10); unsigned long long uv = strtoull(argv[2], 0, 10);
   int n0 = atoi(argv[3]); char g = (char)atoi(argv[4]);
   const bool G = CV_GROUPED;
+#if CV_GROUPED
+  if (kind == "ddef_utos" || kind == "ddef_itos") {   // group character omitted: the buffer overload must write the text the std::string overload returns
+    char buf[64]; int r; std::string t;
+    if (kind == "ddef_utos") { r = celma::format::grouped_int2string(buf, (UT)uv); t = celma::format::grouped_int2string((UT)uv); }
+    else { r = celma::format::grouped_int2string(buf, (ST)sv); t = celma::format::grouped_int2string((ST)sv); }
+    if (t != buf || r != (int)t.size()) { printf("REPRODUCED: group character omitted: buffer overload writes \"%s\" (returns %d), std::string overload returns \"%s\"\n", buf, r, t.c_str()); return 1; }
+    printf("NOT-REPRODUCED: both overloads agree on this input\n"); return 0; }
+#endif
   if (kind == "strlen") {
     int r = CAT(int, CV_W, _str_length)((UT)uv); std::string e = expect((UT)uv, false, false, 0);
     if (r != (int)e.size()) return fail("str_length", e, "", r);
